@@ -32,6 +32,7 @@ func C08(c *core.Ctx) {
 			ms = append(ms, member{name: "bounded integer enum " + pos, cfg: cfg, root: place(&fam.Spec{Kind: "integer", Enum: "ints", Kw: []string{"minimum", "maximum"}, IntBounds: true}, pos)})
 		}
 		ms = append(ms, member{name: "enum lookalike values", cfg: cfg, root: place(&fam.Spec{Kind: "any", Enum: "lookalike"}, "required")})
+		ms = append(ms, member{name: "four enum values that normalise to one identifier", cfg: cfg, root: place(&fam.Spec{Kind: "string", Enum: "collide4"}, "required")})
 		ms = append(ms, member{name: "enum values that normalise to one identifier", cfg: cfg, root: place(&fam.Spec{Kind: "string", Enum: "collide"}, "required")})
 		for _, mb := range ms {
 			runMember(c, mb, rules, 64, func(w *fam.World, fm *fam.FileModel) []fam.Issue {
